@@ -133,6 +133,8 @@ def check(ctx):
             "let u = /base/{ 'k int }; res (concat u (/tail/{ 'j str })) on put -> <>;\n",
             "let self_link = /nodes/{ 'id! int } on get -> <{ 'self self_link }>;\nlet @node = { 'name str, 'parent self_link };\nres self_link;\nres /roots on get -> <[@node]>;\n",
             "let @a = { 'p (rec x num) };\nlet @b = { 'q @a, 'r (rec y uri) };\nres /r on get -> <@b> :: <status=404, (rec z bool)>;\n",
+            # user-chosen map keys spelling "$ref": their values are objects, not references
+            "let @a = { '$ref str, 'n [@a] };\nres /x on get : { '$ref int } -> <headers={ '$ref str }, media=\"$ref\", @a>;\n",
         ]
         for s in extra:
             ps.append({"mods": {"file:///w/main.oal": s}, "main": "file:///w/main.oal", "features": ["corpus"], "ast": None})
